@@ -57,13 +57,14 @@ def quick_corpus():
     c = []
     c.append(tok("lsn", s=1, fs=1, tag="lsn-base"))
     c.append(tok("lsn", s=-1, fs=-1, interp="dct", wall="box", guards=2, tag="lsn-dct-rev"))
-    c.append(tok("usn", s=-1, fs=1, tag="usn-rev"))
+    c.append(tok("usn", s=-1, fs=1, tag="usn-rev", reverse_current=True))
     c.append(tok("usn", s=1, fs=-1, guards=0, wall={"kind": "poly", "n": 16}, tag="usn-g0-poly"))
-    c.append(tok("cdn", s=1, fs=1, tag="cdn-base", ny_inner_lower_divertor=3, ny_outer_lower_divertor=5, ny_inner_upper_divertor=4, ny_outer_upper_divertor=6, ny_inner_sol=3, ny_outer_sol=4))
+    # (all three sign / scale options at once: each is also exercised alone by the C16 pairs)
+    c.append(tok("cdn", s=1, fs=1, tag="cdn-base", reverse_current=True, psi_divide_twopi=True, reverse_Bt=True, ny_inner_lower_divertor=3, ny_outer_lower_divertor=5, ny_inner_upper_divertor=4, ny_outer_upper_divertor=6, ny_inner_sol=3, ny_outer_sol=4))
     c.append(tok("cdn", s=-1, fs=-1, orth=False, tag="cdn-nonorth-rev"))
     c.append(tok("cdn", s=1, fs=1, orth=False, wall="slant", guards=0, tag="cdn-nonorth"))
     # double nulls with four different leg sizes and unequal inner/outer core (C08)
-    c.append(tok("ldn", s=1, fs=1, tag="ldn-base", psinorm_sol_inner=1.12, ny_inner_lower_divertor=3, ny_outer_lower_divertor=4, ny_inner_upper_divertor=5, ny_outer_upper_divertor=6, ny_inner_sol=3, ny_outer_sol=4))
+    c.append(tok("ldn", s=1, fs=1, tag="ldn-base", eq_extra={"fvar": 2.5}, psinorm_sol_inner=1.12, ny_inner_lower_divertor=3, ny_outer_lower_divertor=4, ny_inner_upper_divertor=5, ny_outer_upper_divertor=6, ny_inner_sol=3, ny_outer_sol=4))
     c.append(tok("ldn", s=-1, fs=1, orth=False, tag="ldn-nonorth-rev"))
     c.append(tok("udn", s=-1, fs=-1, guards=0, tag="udn-rev-g0", psinorm_sol_inner=1.15, ny_inner_lower_divertor=4, ny_outer_lower_divertor=3, ny_inner_upper_divertor=5, ny_outer_upper_divertor=6, ny_inner_sol=3, ny_outer_sol=4))
     c.append(tok("ldn", s=1, fs=-1, interp="dct", guards=0, tag="ldn-dct-g0", eq_extra={"nR": 49, "nZ": 57}))
@@ -75,7 +76,8 @@ def quick_corpus():
     c.append(tok("udn", s=1, fs=1, orth=False, guards=2, tag="udn-nonorth-g2"))
     c.append(tok("lsn", s=1, fs=1, via="geqdsk", wall={"kind": "slant", "cw": True}, tag="lsn-geqdsk-cw"))
     # strongly unequal legs (C08) -- long outer leg, long inner leg
-    c.append(tok("lsn", s=1, fs=1, tag="lsn-long-outer", ny_inner_divertor=2, ny_outer_divertor=9, ny_sol=4))
+    # (fpol varying by 40 % across the plasma: a toroidal field taken from the wrong flux surface shows)
+    c.append(tok("lsn", s=1, fs=1, tag="lsn-long-outer", eq_extra={"fvar": 2.5}, ny_inner_divertor=2, ny_outer_divertor=9, ny_sol=4))
     c.append(tok("usn", s=1, fs=1, tag="usn-long-inner", ny_inner_divertor=8, ny_outer_divertor=3, ny_sol=4, guards=2, wall="box"))
     # extrapolated profiles: psi_sol must be given as a number (analytic axis/boundary values)
     from .families import GaussFamily
@@ -94,8 +96,13 @@ def quick_corpus():
     f2_ = GaussFamily(e2_)
     ps2 = f2_.psi_axis + 1.2 * (f2_.psi_bdry - f2_.psi_axis)
     c.append(tok("ldn", s=1, fs=-1, tag="ldn-psisol", psinorm_sol=1.01, psi_sol=ps2, psi_sol_inner=ps2))
+    # a radial limit given as the number 0.0 (psi shifted by a constant so that the surface psi_N = 1.2
+    # carries the label 0): an explicit zero is a value, not "not given"; psinorm_sol says 1.1
+    e3_ = {"topo": "usn", "s": -1, "fs": 1, "shift": [0.003, 0.002]}
+    f3_ = GaussFamily(e3_)
+    c.append(tok("usn", s=-1, fs=1, tag="usn-psisol-zero", eq_extra={"poff": -(f3_.psi_axis + 1.2 * (f3_.psi_bdry - f3_.psi_axis))}, psinorm_sol=1.1, psi_sol=0.0))
     # the whole machine moved up so that max(Z) > max(R): catches R/Z mix-ups that a domain with |Z|<R hides
-    c.append(tok("lsn", s=-1, fs=-1, tag="lsn-zoff", eq_extra={"zoff": 1.9}, wall={"kind": "slant", "zoff": 1.9}, guards=2))
+    c.append(tok("lsn", s=-1, fs=-1, tag="lsn-zoff", eq_extra={"zoff": 1.9}, wall={"kind": "slant", "zoff": 1.9, "rot": 3}, guards=2))
     # the same kind of grid built by worker processes (number_of_processors=3): the refined contours
     # come back from the workers as copies, so every use of ParallelMap's result is exercised
     c.append(dict(tok("cdn", s=1, fs=-1, orth=False, wall="slant2", tag="cdn-nonorth-np3"), np=3))
@@ -121,6 +128,7 @@ def thorough_extra(seed):
             if isinstance(wall, str):
                 wall = {"kind": wall}
             wall["cw"] = rnd.random() < 0.5
+            wall["rot"] = rnd.randrange(0, 4)
             shift = (round(rnd.uniform(-0.007, 0.007), 5), round(rnd.uniform(-0.007, 0.007), 5))
             extra = {}
             extra["nx_core"] = rnd.randint(2, 5)
